@@ -46,6 +46,8 @@ type simStoreCfg struct {
 	// CtxAware: the driver honours its context the way a remote driver does - a call that finds the context done
 	// returns ctx.Err() (before delivering anything, or between two elements). The in-memory driver never does.
 	CtxAware bool
+	// SlowWrites: every AddTriples / RemoveTriples takes this long (simulated time) before it is applied.
+	SlowWrites time.Duration
 	// Transparent: lookups are forwarded with the engine's own result channel instead of being collected and re-delivered
 	// (no pacing, no permutation, no mid-stream faults): the real driver's behaviour towards the engine is not shielded.
 	Transparent bool
@@ -342,6 +344,9 @@ func (g *simGraph) AddTriples(ctx context.Context, ts []*triple.Triple) error {
 		g.s.fire(rec, "err_on_write")
 		return errInjected
 	}
+	if g.s.cfg.SlowWrites > 0 {
+		time.Sleep(g.s.cfg.SlowWrites)
+	}
 	return g.g.AddTriples(ctx, ts)
 }
 
@@ -354,6 +359,9 @@ func (g *simGraph) RemoveTriples(ctx context.Context, ts []*triple.Triple) error
 	if f != nil {
 		g.s.fire(rec, "err_on_write")
 		return errInjected
+	}
+	if g.s.cfg.SlowWrites > 0 {
+		time.Sleep(g.s.cfg.SlowWrites)
 	}
 	return g.g.RemoveTriples(ctx, ts)
 }
